@@ -180,6 +180,10 @@ func runC06(c *Ctx) {
 			seal(fmt.Sprintf("tag%d/pt=%s", ts, lenClass(pl)), c.rng.Bytes(16), c.rng.Bytes(12), c.rng.Bytes(20), c.rng.Bytes(pl), ts)
 		}
 	}
+	// long aad / plaintext: the higher bytes of the two 64-bit bit-length fields of the final GHASH block
+	for _, ll := range [][2]int{{8192, 5}, {8193, 0}, {65536, 17}, {70001, 33}, {5, 8192}, {0, 65537}, {33, 70000}} {
+		seal(fmt.Sprintf("lenblock/aad=%d/pt=%d", ll[0], ll[1]), c.rng.Bytes(16), c.rng.Bytes(12), c.rng.Bytes(ll[0]), c.rng.Bytes(ll[1]), 16)
+	}
 	// counter wrap: solve a 16-byte nonce for a chosen J0
 	for k := 0; k <= 40; k++ {
 		if c.tier != "thorough" && k > 18 && k%4 != 0 {
